@@ -18,6 +18,7 @@ import traceback
 from pathlib import Path
 
 ROOT = Path(__file__).resolve().parent.parent
+OUT = Path(os.environ.get("SYMX_OUT") or ROOT)  # where evidence/ and replays/ are written
 EXIT_OK, EXIT_VIOLATION, EXIT_HARNESS = 0, 1, 3
 
 
@@ -137,7 +138,7 @@ def _run_case(args):
         scenario = getattr(mod, case["scenario"])
         b = dict(getattr(mod, "BOUNDS", {}))
         b.update(case.get("bounds", {}))
-        allowed = tuple(case.get("allowed", ()))
+        allowed = tuple(getattr(mod, a) if isinstance(a, str) else a for a in case.get("allowed", ()))
         res = E.explore(
             scenario,
             cfg,
@@ -423,7 +424,7 @@ def run_check(check_id: str, tier: str, seed: int, jobs: int | None = None, only
     known_hits = []
     nonrepro = []
     findings = load_known_findings()
-    replays_dir = ROOT / "replays"
+    replays_dir = OUT / "replays"
     samples = []
     n_replays = 0
     per_case = []
@@ -526,9 +527,9 @@ def run_check(check_id: str, tier: str, seed: int, jobs: int | None = None, only
         if key in printed:
             continue
         printed.add(key)
-        print(f"KNOWN-FINDING: property={check_id} {k['what']} [case={cname} obligation={oname} replay={os.path.relpath(f, ROOT)}]")
+        print(f"KNOWN-FINDING: property={check_id} {k['what']} [case={cname} obligation={oname} replay={os.path.relpath(f, OUT)}]")
     for cname, oname, f in violations:
-        print(f"VIOLATION property={check_id} replay={os.path.relpath(f, ROOT)} case={cname} obligation={oname}")
+        print(f"VIOLATION property={check_id} replay={os.path.relpath(f, OUT)} case={cname} obligation={oname}")
     for cname, oname, f, err, failed in nonrepro:
         harness_errors.append(f"counterexample for {cname}/{oname} did not reproduce on the real (JIT) build: file={f} error={err} failed={failed}")
 
@@ -578,8 +579,8 @@ def run_check(check_id: str, tier: str, seed: int, jobs: int | None = None, only
         "wall_s": round(wall, 2),
         "violations": len(violations),
     }
-    (ROOT / "evidence").mkdir(exist_ok=True)
-    (ROOT / "evidence" / f"{check_id}.json").write_text(json.dumps(ev, indent=1, default=str))
+    (OUT / "evidence").mkdir(parents=True, exist_ok=True)
+    (OUT / "evidence" / f"{check_id}.json").write_text(json.dumps(ev, indent=1, default=str))
     print(
         f"{check_id} tier={tier}: cases={len(tasks)} paths={total.paths} obligations={total.obligations} discharged={total.discharged} "
         f"inconclusive={total.inconclusive} queries={sum(total.queries.values())} solver_s={total.solver_s:.1f} canaries={sum(1 for c in can_summary if c.get('caught'))}/{len(can_summary)} "
